@@ -64,6 +64,8 @@ func (cache *CacheLFU) GetCount(key string) (int, error) {
 func (cache *CacheLFU) Flush() {
 	clear(cache.keys)
 	clear(cache.entries)
+	// clear() only zeroes the elements: drop them, or the heap keeps nil entries.
+	cache.entries = cache.entries[:0]
 }
 
 func (cache *CacheLFU) Len() int {
